@@ -86,6 +86,7 @@ def c03_case(ctx: Ctx, case: dict):
                 ctx.violate(f"C03/jax/{fn}/default", f"{fn}()[{i}] = {arr[i]!r} but {nme} is declared as {oracle.fmt(ref)}", case=case)
                 break
     pts = case.get("points") or ns.points_for(ctx, rm, ctx.n(3, 5), dts=(1e-3, 0.1, 0.0, -0.05))
+    pts = list(pts) + oracle.boundary_points(rm, pts[0], limit=3)
     for pi, pt in enumerate(pts):
         s, p, mv = oracle.arrays_for(pt, lay)
         calls = [("rhs", "tsp", None), ("monitor_values", "tsp", None)] + [(fn, "stdp", refs[fn]) for fn in refs] if refs else []
@@ -365,6 +366,7 @@ def c02_case(ctx: Ctx, case: dict):
                 break
     refs = scheme_refs(ctx, rm, text, 1e-8, stiff)
     pts = case.get("points") or ns.points_for(ctx, rm, ctx.n(4, 6), dts=(1e-3, 0.1, 0.0, -0.05))
+    pts = list(pts) + oracle.boundary_points(rm, pts[0], limit=3)
     for pi, pt in enumerate(pts):
         s, p, mv = oracle.arrays_for(pt, lay)
         calls = [("rhs", "tsp", None, ns_), ("monitor_values", "tsp", None, nmon)]
